@@ -33,6 +33,10 @@ KNOWN_CLASSES = {
     "int.ub-above-int64.uper": lambda feats, syn: syn == "uper" and "int.ub>int64" in feats,
     # no PER character map is generated for a permitted alphabet with holes that reaches above 255
     "from.sparse-above-255.uper": lambda feats, syn: syn == "uper" and "from.sparse>255" in feats,
+    # BASIC-XER prints REAL with "%.15f" (pinned by the repository's own check-REAL test)
+    "real.basic-xer-precision": lambda feats, syn: syn == "xer" and "real.lossy15f" in feats,
+    # "We model INTEGER on long for XER" (INTEGER.c): the XER decoder refuses values outside the C long range
+    "int.beyond-long.xer": lambda feats, syn: syn in ("xer", "cxer") and "int.beyond-long" in feats,
     # SET has no OER/UPER codec at all
     "set.no-oer-uper": lambda feats, syn: syn in ("oer", "uper") and "SET" in feats,
 }
